@@ -8,6 +8,9 @@ U = ["mptplot/values/linepart_linear.c", "mptplot/values/linepart_code.c", "mptp
 def queries(tier):
     n = 4 if tier == "quick" else 6
     return [
+        Q("partition_n3", "C18/partition.c", units=[("mptplot/values/linepart_linear.c", {"mpt_linepart_code": "verif_code_stub"}), U[1], U[2]],
+          harness_defines={"N": 3, "MAGNITUDE": "1e300"}, unwind_default=5,
+          bounds="1..3 finite doubles (|x| <= 1e300), every range min <= max; documented driver loop", outside="see partition", timeout=600),
         Q("partition", "C18/partition.c", units=[("mptplot/values/linepart_linear.c", {"mpt_linepart_code": "verif_code_stub"}), U[1], U[2]],
           harness_defines={"N": n, "MAGNITUDE": "1e300"}, unwind_default=n + 2,
           bounds="1..%d finite doubles (|x| <= 1e300), every range min <= max; documented driver loop" % n,
